@@ -441,7 +441,9 @@ func e1RunWordInner(sc e1Scen, word []sym, scratch string, props map[string]bool
 						r.add("ALL", "fault-not-hit", "the injected storage fault at rotation %d was not hit", rotations)
 					}
 					r.faulted = true
-					if sc.Prop != "C07" { // C07 looks at Close only, not at what is served after the failed write
+					// C07 looks at Close only, not at what is served after the failed write; a Low-Latency playlist cannot be
+					// served at all until the next Write has re-created the open segment (known finding of C18, which looks)
+					if sc.Prop != "C07" && !(sc.Cfg.Variant == "ll" && sc.Prop != "C18") {
 						r.observe()
 						r.checkStep()
 					}
